@@ -373,6 +373,8 @@ impl Ctx {
             let mut runner = TestRunner::new_with_rng(cfg, rng);
             let st = RefCell::new(Stats::default());
             let failed = RefCell::new(false);
+            // the first failing case, before shrinking (reported when the shrunk one turns out not to fail)
+            let first_fail: RefCell<Option<(C, Fail)>> = RefCell::new(None);
             let res = runner.run(&strategy(), |recipe| {
                 let case = match elab(&recipe) {
                     Some(c) => c,
@@ -391,6 +393,7 @@ impl Ctx {
                 match self.absorb(&mut stm, &case, &out, campaign, w == 0) {
                     Some(f) => {
                         *failed.borrow_mut() = true;
+                        *first_fail.borrow_mut() = Some((case.clone(), f.clone()));
                         Err(TestCaseError::fail(f.signature))
                     }
                     None => Ok(()),
@@ -411,8 +414,12 @@ impl Ctx {
                                 size: case.size(),
                                 replay_path: None,
                             });
-                        } else {
-                            stm.internal.push(format!("{}: shrunk recipe no longer fails: {:?}", campaign, recipe));
+                        } else if let Some((orig, f0)) = first_fail.borrow_mut().take() {
+                            // behaviour that depends on earlier calls: fall back to the unshrunk case
+                            match orig.run().verdict {
+                                Verdict::Fail(f) => stm.add_failure(Failure { fail: f, kind_tag: C::KIND.to_string(), campaign: campaign.to_string(), case: serde_json::to_value(&orig).unwrap(), size: orig.size(), replay_path: None }),
+                                _ => stm.internal.push(format!("{}: a case failed ({}: {}) but neither it nor its shrunk form fails when run again: the outcome depends on what ran before", campaign, f0.signature, f0.detail.chars().take(300).collect::<String>())),
+                            }
                         }
                     }
                 }
